@@ -449,6 +449,33 @@ func checkRaw(c rawCase) evid.Outcome {
 		if !bytes.Equal(got.Encode(), want.Encode()) || got.RXDelay != want.RXDelay {
 			return evid.Fail("join-accept bytes %x decode to %x (RXDelay %d), specification layout gives %x (RXDelay %d; reserved bits are ignored)", []byte(b), got.MACPayloadBytes(), got.RXDelay, want.MACPayloadBytes(), want.RXDelay)
 		}
+		// one field pushed out of its range: the encoder refuses, or whatever it emits still has the specification's
+		// length with every other field in its place
+		valid, verr := p.MarshalBinary()
+		if verr == nil {
+			q := p
+			var lo, hi int // bytes the field occupies
+			var what string
+			switch b[2] % 4 {
+			case 0:
+				q.JoinNonce |= lorawan.JoinNonce(1+uint32(b[0])%255) << 24
+				lo, hi, what = 0, 3, fmt.Sprintf("JoinNonce %#x", uint32(q.JoinNonce))
+			case 1:
+				q.RXDelay = 16 + b[1]%240
+				lo, hi, what = 11, 12, fmt.Sprintf("RXDelay %d", q.RXDelay)
+			case 2:
+				q.DLSettings.RX2DataRate = 16 + b[1]%240
+				lo, hi, what = 10, 11, fmt.Sprintf("RX2DataRate %d", q.DLSettings.RX2DataRate)
+			default:
+				q.DLSettings.RX1DROffset = 8 + b[1]%248
+				lo, hi, what = 10, 11, fmt.Sprintf("RX1DROffset %d", q.DLSettings.RX1DROffset)
+			}
+			if out, err := q.MarshalBinary(); err == nil {
+				if len(out) != len(valid) || !bytes.Equal(out[:lo], valid[:lo]) || !bytes.Equal(out[hi:], valid[hi:]) {
+					return evid.Fail("JoinAcceptPayload with %s (outside the field's range) encodes without error to %x (%d bytes); with the field in range the payload is %x (%d bytes): the other fields are not where the specification puts them", what, out, len(out), valid, len(valid))
+				}
+			}
+		}
 		return evid.Outcome{NonTrivial: b[11]&0xf0 != 0 || len(b) == 28, Class: c.What}
 	case "joinreq", "rejoin02", "rejoin1":
 		mt := byte(ref.MTJoinRequest)
@@ -523,6 +550,18 @@ func checkRaw(c rawCase) evid.Outcome {
 				return evid.Fail("PHYPayload.UnmarshalBinary rejects the specification-conformant data frame %x (MType %d, FOptsLen %d, FPort %d): %v", frame(mt), mt, len(want.FOpts), want.FPort, err)
 			}
 		}
+		// received in a loop (one variable, the value kept while the variable decodes the next frame): the kept value
+		// still carries the specification's fields
+		for _, mt := range []byte{ref.MTUnconfUp, ref.MTConfDown} {
+			kept, err := gen.Receive(frame(mt), true)
+			if err != nil {
+				return evid.Fail("PHYPayload.UnmarshalBinary(%x): %v", frame(mt), err)
+			}
+			kg, err := gen.FromLib(&kept)
+			if err != nil || !bytes.Equal(kg.MACPayloadBytes(), want.MACPayloadBytes()) || kg.FPort != want.FPort || kg.MType != mt {
+				return evid.Fail("the frame %x was decoded and kept by value, then the same variable decoded %x: the kept value now reads MType %d MACPayload %x FPort %d (err %v), specification layout gives MType %d %x FPort %d", frame(mt), gen.Decoy(frame(mt)), kg.MType, kg.MACPayloadBytes(), kg.FPort, err, mt, want.MACPayloadBytes(), want.FPort)
+			}
+		}
 		phy := lorawan.PHYPayload{MHDR: lorawan.MHDR{MType: lorawan.UnconfirmedDataUp}, MACPayload: &m}
 		got, err := gen.FromLib(&phy)
 		if err != nil {
@@ -585,6 +624,6 @@ func TestProp(t *testing.T) {
 		150000, 15000000, genVal, checkVal)
 
 	evid.Rapid(r, t, "join-cflist-fhdr-bytes",
-		"rapid: arbitrary bytes of the right size for join-accept (12/28), join-request, rejoin 0/2, rejoin 1, CFList (type 0/1), data MACPayload (7..40 bytes, FOptsLen mostly consistent): library decode == model decode (little-endian fields, reserved bits ignored), re-encode == input where the structure has no reserved bits. Non-trivial: join-accept with reserved RxDelay bits or CFList; data frame with FOpts and FPort.",
+		"rapid: arbitrary bytes of the right size for join-accept (12/28), join-request, rejoin 0/2, rejoin 1, CFList (type 0/1), data MACPayload (7..40 bytes, FOptsLen mostly consistent): library decode == model decode (little-endian fields, reserved bits ignored), re-encode == input where the structure has no reserved bits; a decoded data frame kept by value still reads the same after its variable decoded the next frame; a join-accept with one field pushed out of its range (JoinNonce >= 2^24, RXDelay > 15, RX2DataRate > 15, RX1DROffset > 7) is refused, or what is emitted has the specification's length with every other field in place. Non-trivial: join-accept with reserved RxDelay bits or CFList; data frame with FOpts and FPort.",
 		150000, 6000000, genRaw, checkRaw)
 }
